@@ -425,7 +425,11 @@ func (s *fileScn) q4(m int) {
 	s.t.Emit(e)
 }
 
-func (s *fileScn) q6(m int, iana_ bool) {
+func (s *fileScn) q6(m int, iana_ bool) { s.q6x(m, iana_, false) }
+
+// q6x: iata_ adds an IA_TA (temporary addresses): the static mapping is served in an IA_NA when one was requested - an
+// IA_TA, with or without an IA_NA next to it, changes nothing about that
+func (s *fileScn) q6x(m int, iana_, iata_ bool) {
 	if s.h6 == nil {
 		return
 	}
@@ -443,6 +447,12 @@ func (s *fileScn) q6(m int, iana_ bool) {
 	iaid := [4]byte{9, byte(s.r.Intn(256)), byte(s.r.Intn(256)), 7}
 	if iana_ {
 		msg.AddOption(&dhcpv6.OptIANA{IaId: iaid})
+	}
+	if iata_ {
+		msg.AddOption(&dhcpv6.OptIATA{IaId: [4]byte{8, 8, 8, byte(s.r.Intn(256))}})
+		if s.r.Intn(2) == 0 {
+			msg.AddOption(&dhcpv6.OptIAPD{IaId: [4]byte{7, 7, 7, 7}})
+		}
 	}
 	req, err := dhcpv6.FromBytes(msg.ToBytes())
 	if err != nil {
@@ -495,6 +505,8 @@ func (s *fileScn) queryAll() {
 	}
 	s.q6(0, false)
 	s.q6(1, false)
+	s.q6x(0, false, true)
+	s.q6x(1, true, true)
 }
 
 func filesUpTo(alpha []fline, n int) [][]fline {
